@@ -61,13 +61,13 @@ def run_histories(ctx, exe, scripts, timeout=900, max_restarts=40):
     return out
 
 
-def tlc_edges(ctx, module, cfg_text, label, timeout=900):
+def tlc_edges(ctx, module, cfg_text, label, timeout=900, workers=1):
     """Run the MC module with a generated cfg (DumpEdges = TRUE) and return the printed edges {s,a,t}."""
     d = vlib.mkdirs(os.path.join(ctx.work, 'cfg'))
     cfg = os.path.join(d, label + '.cfg')
     with open(cfg, 'w') as f:
         f.write(cfg_text)
-    r = vlib.tlc(ctx, module, cfg, workers=1, timeout=timeout, label=label, kind='mc', args=['-noGenerateSpecTE'])
+    r = vlib.tlc(ctx, module, cfg, workers=workers, timeout=timeout, label=label, kind='mc', args=['-noGenerateSpecTE'])
     if not r.clean:
         raise MachineryError('edge dump run failed (%s):\n%s' % (label, r.tail(40)))
     edges = scheck.parse_edges(r.out)
@@ -76,11 +76,11 @@ def tlc_edges(ctx, module, cfg_text, label, timeout=900):
     return edges, r
 
 
-def tlc_edges_many(ctx, module, cfgs, timeout=1500):
+def tlc_edges_many(ctx, module, cfgs, timeout=2400, workers=1):
     """cfgs: list of (label, cfg_text).  Runs the edge dumps concurrently (one TLC worker each); returns list of (edges, result)."""
     import concurrent.futures
     with concurrent.futures.ThreadPoolExecutor(max_workers=min(3, max(1, len(cfgs)))) as ex:
-        return list(ex.map(lambda c: tlc_edges(ctx, module, c[1], c[0], timeout=timeout), cfgs))
+        return list(ex.map(lambda c: tlc_edges(ctx, module, c[1], c[0], timeout=timeout, workers=workers), cfgs))
 
 
 def validate_both(ctx, p_spec, i_spec, lines, label, chunk=3000):
